@@ -360,6 +360,13 @@ def run(ctx):
                    'AGREE/GD')
     job_invocation(ctx, r10)
 
+    # ---- R11 the retry decorator sees the errors it is there for ---------------------
+    r11 = ctx.rule('R11', 'no broad exception handler swallows DB errors '
+                   'inside a function decorated with retry_on_db_error '
+                   '(e.g. the delete of a finished job)', 'GD (handlers)')
+    from mstatic.rules import shared as _sh
+    _sh.retry_not_defeated(ctx, r11)
+
     # ---- R8 guarded-by -----------------------------------------------------------------------
     r8 = ctx.rule('R8', 'in-memory job structures are accessed only under '
                   'the scheduler condition lock', 'lock discipline')
